@@ -221,3 +221,12 @@ package definition
 //@ func GetPillarsList(context, onlyActive, pillarType) -> (list, err)
 //@   trusted
 //@   modifies nothing
+
+// Iteration over stored entries with a callback: whatever the callback does. (C09 division sweep: only the order of the
+// caller's guard and the call matters.)
+//@ func IterateStakeEntries(context, f) -> (err)
+//@   trusted
+//@   modifies *
+//@ func IterateSentinelEntries(context, f) -> (err)
+//@   trusted
+//@   modifies *
